@@ -5,10 +5,11 @@ namespace YaegiVerif.Expected.C17
 open YaegiVerif.Build
 
 def known : Known :=
-  { os := ["aix","android","darwin","dragonfly","freebsd","illumos","ios","js","linux","netbsd",
-           "openbsd","plan9","solaris","wasip1","windows"],
-    arch := ["386","amd64","arm","arm64","loong64","mips","mips64","mips64le","mipsle","ppc64",
-             "ppc64le","s390x","wasm"] }
+  { os := ["aix","android","darwin","dragonfly","freebsd","hurd","illumos","ios","js","linux","nacl",
+           "netbsd","openbsd","plan9","solaris","wasip1","windows","zos"],
+    arch := ["386","amd64","amd64p32","arm","arm64","arm64be","armbe","loong64","mips","mips64",
+             "mips64le","mips64p32","mips64p32le","mipsle","ppc","ppc64","ppc64le","riscv","riscv64","s390","s390x",
+             "sparc","sparc64","wasm"] }
 
 /-- fingerprints (extract/main.go `funcHash`) of the functions Model/Build.lean was transcribed from -/
 def sourceHashes : List (String × String) :=
@@ -18,6 +19,7 @@ def sourceHashes : List (String × String) :=
    ("buildTagOk", "7fdcd81c0339bc70"),
    ("goMinorVersion", "36f86cc7c4e77419"),
    ("contains", "fb8522e3b98e05f8"),
-   ("skipFile", "2763dfde14e38d38")]
+   ("skipFile", "2f8fb4545507447b"),
+   ("matchOsArch", "3592d482c5e5e0b6")]
 
 end YaegiVerif.Expected.C17
